@@ -9,6 +9,7 @@ import (
 	"strings"
 
 	"github.com/cockroachdb/errors"
+	"github.com/cockroachdb/errors/barriers"
 	"github.com/cockroachdb/errors/domains"
 	"github.com/cockroachdb/errors/errorspb"
 	"github.com/cockroachdb/errors/extgrpc"
@@ -58,6 +59,10 @@ func Fmt3(lit string) string { return "lit " + esc(lit) + " u=%s s=%s" }
 
 func esc(s string) string { return strings.ReplaceAll(s, "%", "%%") }
 
+// JoinArgs interleaves nil arguments according to the mask (bit i: a
+// nil precedes branch i; bit n: trailing nil).
+func JoinArgs(mask int, xs []error) []error { return joinArgs(mask, xs) }
+
 func joinArgs(mask int, xs []error) []error {
 	var out []error
 	for i, x := range xs {
@@ -106,6 +111,13 @@ func (b *Built) build(s *Spec) (res error) {
 	case "grpcstatus":
 		return grpcstatus.Error(codes.Code(s.I[0]), S(0))
 	case "gogostatus":
+		if len(s.I) > 1 && s.I[1] == 1 {
+			st, err := gogostatus.New(codes.Code(s.I[0]), S(0)).WithDetails(&errorspb.StringPayload{Msg: S(1)})
+			if err != nil {
+				panic(err)
+			}
+			return st.Err()
+		}
 		return gogostatus.Error(codes.Code(s.I[0]), S(0))
 	case "addrerr":
 		return &net.AddrError{Err: S(0), Addr: S(1)}
@@ -184,10 +196,18 @@ func (b *Built) build(s *Spec) (res error) {
 		return errors.CombineErrors(c, xs[0])
 	case "wrapferr":
 		return errors.Wrapf(c, "lit "+esc(S(0))+" e=%v", xs[0])
+	case "wrapfgosyntax":
+		return errors.Wrapf(c, "lit "+esc(S(0))+" e=%#v", xs[0])
 	case "handled":
 		return errors.Handled(c)
 	case "handledmsg":
 		return errors.HandledWithMessage(c, S(0))
+	case "handledmsgf":
+		return barriers.HandledWithMessagef(c, Fmt3(S(0)), S(1), errors.Safe(S(2)))
+	case "handledmsgf0":
+		return barriers.HandledWithMessagef(c, "lit "+esc(S(0)))
+	case "handledsafemsg":
+		return barriers.HandledWithSafeMessage(c, redact.Sprintf(Fmt3(S(0)), S(1), errors.Safe(S(2))))
 	case "handleddomain":
 		return errors.HandledInDomain(c, errors.NamedDomain(S(0)))
 	case "handleddomainmsg":
